@@ -215,3 +215,5 @@ func kp(s string) *idempotency.Key {
 	k := idempotency.Key(s)
 	return &k
 }
+
+func jsonMarshal(v any) ([]byte, error) { return json.Marshal(v) }
